@@ -10,6 +10,7 @@ import (
 	"net"
 	"os"
 	"path/filepath"
+	"regexp"
 	"strings"
 	"time"
 
@@ -230,6 +231,9 @@ func framesLoki(t *target, body []byte) ([]frame, *problem) {
 
 const lokiMsgField, lokiTsField = "a", "ts"
 
+// a line without a timestamp field gets time.Now().UnixNano(); the alphabet's own timestamp is 1700000000000000000
+var lokiNow = regexp.MustCompile(`\["(1[89]|[2-9][0-9])[0-9]{17}",`)
+
 func matchLoki(t *target, want, got *V) bool {
 	if got.Kind != Arr || len(got.Elems) != 3 || got.Elems[0].Kind != Str || got.Elems[1].Kind != Str {
 		return false
@@ -430,7 +434,7 @@ func missingFieldTrigger(field string) func(t *target, specs []evSpec) string {
 
 // ---- the targets -----------------------------------------------------------------
 
-func makeTargets(scratch string) []*target {
+func makeTargets(scratch string, want func(output string) bool) []*target {
 	var out []*target
 	add := func(t *target) {
 		t.name = t.output + "/" + t.variant + "/" + t.buf
@@ -447,7 +451,7 @@ func makeTargets(scratch string) []*target {
 	for _, avg := range avgs {
 		avg := avg
 		// ---------------- file
-		{
+		if want("file") {
 			dir := filepath.Join(scratch, "file-"+avg.name)
 			p, _ := startOutput("file", fmt.Sprintf(`{"target_file":%q,"batch_size":"4","retention_interval":"24h"}`, filepath.Join(dir, "out.log")), avg.n, true)
 			fp := p.(*file.Plugin)
@@ -487,6 +491,9 @@ func makeTargets(scratch string) []*target {
 			{"json-split", `,"split_batch":true`, true, false},
 			{"raw-split", `,"split_batch":true,"encoding":{"type":"raw","params":{"field":"a"}}`, true, true},
 		} {
+			if !want("http") {
+				continue
+			}
 			p, _ := startOutput("http", `{"endpoints":["http://127.0.0.1:1/x"],"batch_size":"4"`+v.extra+`}`, avg.n, true)
 			hp := p.(*httpout.Plugin)
 			t := &target{output: "http", variant: v.name, buf: avg.name, split: v.split, canFail: true,
@@ -513,6 +520,9 @@ func makeTargets(scratch string) []*target {
 			{"field-a-split", `,"index_format":"i-%","index_values":["a"],"split_batch":true`, "a", true},
 			{"field-idx-create", `,"index_format":"%-%","index_values":["idx","@time"],"batch_op_type":"create"`, "idx", false},
 		} {
+			if !want("elasticsearch") {
+				continue
+			}
 			v := v
 			p, _ := startOutput("elasticsearch", `{"endpoints":["http://127.0.0.1:1"],"batch_size":"4"`+v.extra+`}`, avg.n, true)
 			ep := p.(*elasticsearch.Plugin)
@@ -540,6 +550,9 @@ func makeTargets(scratch string) []*target {
 			{"plain", ``},
 			{"copy", `,"copy_fields":[{"from":"a","to":"fields.a"},{"from":"idx","to":"index"}]`},
 		} {
+			if !want("splunk") {
+				continue
+			}
 			p, _ := startOutput("splunk", `{"endpoint":"http://127.0.0.1:1/services/collector","token":"t","batch_size":"4"`+v.extra+`}`, avg.n, true)
 			sp := p.(*splunk.Plugin)
 			t := &target{output: "splunk", variant: v.name, buf: avg.name, canFail: true,
@@ -552,20 +565,21 @@ func makeTargets(scratch string) []*target {
 			add(t)
 		}
 		// ---------------- loki
-		{
+		if want("loki") {
 			p, _ := startOutput("loki", `{"address":"http://127.0.0.1:1","batch_size":"4","message_field":"a","timestamp_field":"ts","labels":[{"label":"l\"q","value":"v\"\n"}]}`, avg.n, true)
 			lp := p.(*loki.Plugin)
-			t := &target{output: "loki", variant: "default", buf: avg.name, canFail: true,
+			t := &target{output: "loki", variant: "default", buf: avg.name, canFail: true, isolateRetry: true,
 				newWorker: func(t *target) *worker { return &worker{} },
 				out:       func(w *worker, b *pipeline.Batch) error { return loki.VerifOut(lp, &w.wd, b) },
 				frames:    framesLoki,
 				match:     matchLoki,
+				normalize: func(b []byte) []byte { return lokiNow.ReplaceAll(b, []byte(`["NOW",`)) },
 			}
 			xhttp.VerifSetTransport(loki.VerifClient(lp), t.transport(func(b []byte) int { return 1 }, ``, 204))
 			add(t)
 		}
 		// ---------------- gelf
-		{
+		if want("gelf") {
 			p, _ := startOutput("gelf", `{"endpoint":"127.0.0.1:1","batch_size":"4"}`, avg.n, true)
 			gp := p.(*gelf.Plugin)
 			add(&target{output: "gelf", variant: "default", buf: avg.name, canFail: true, slowFail: true,
@@ -582,6 +596,9 @@ func makeTargets(scratch string) []*target {
 			{"default-topic", ``, ""},
 			{"topic-field", `,"use_topic_field":true,"topic_field":"idx"`, "idx"},
 		} {
+			if !want("kafka") {
+				continue
+			}
 			v := v
 			_, config := startOutput("kafka", `{"brokers":["127.0.0.1:1"],"default_topic":"dflt","batch_size":"4"`+v.extra+`}`, avg.n, false)
 			t := &target{output: "kafka", variant: v.name, buf: avg.name, canFail: true,
